@@ -94,7 +94,10 @@ def emplace_tmpl(args, env):
 
 RECV_RULES = [
     # auto r = std::move(*this);  (RAII: r lives to the end of the function and owns what the receiver owned)
-    Guard(r"auto (\w+) = std::move\(\*this\);", r"struct pred_receiver \1 = pred_receiver_move(self);", r"pred_receiver_dtor(&\1);", 1),
+    Guard(r"auto (\w+) = std::move\(\*this\);", r"struct pred_receiver \1 = pred_receiver_move(self);", r"pred_receiver_dtor(&\1);", None),
+    # auto&& r = std::move(*this);  (a reference: nothing is moved, the receiver stored in the predecessor operation state keeps its members)
+    Sub(r"auto\s*&&?\s*(\w+) = std::move\(\*this\);", r"struct pred_receiver \1 = pred_receiver_alias(self);", None),
+    Sub(r"\bpred_receiver_(move|alias)\(self\)", r"pred_receiver_\1(self)", 1),     # exactly one of the two spellings
     Sub(r"\b(\w+)\.state\.", r"\1.state->", None),
     FWD,
     Call(r"std::make_tuple(?:<>)?", "{args}", None),
